@@ -85,7 +85,14 @@ def cases(tier):
             yield c
     for pre, eff in (("(and (>= (f) (- 0 (g ?y))))", "(and (increase (f) (- 0 (g ?x))))"),
                      ("(and (< (- 0 (f)) (+ 0 (g ?x))))", "(and (assign (g ?x) (- (g ?x) 0)) (when (r) (decrease (f) (- 0 1))))"),
-                     ("(and (> (* 1 (f)) (/ (g ?y) 1)))", "(and (assign (f) (* (g ?x) 1)))")):
+                     ("(and (> (* 1 (f)) (/ (g ?y) 1)))", "(and (assign (f) (* (g ?x) 1)))"),
+                     # a sum / product as the right operand of - and /, or an operand of *, where the exporter prints through
+                     # its simplifier (nested conditions, when-conditions)
+                     ("(and (or (r) (< (- (f) (+ (g ?x) 1)) 2)))", "(and (when (>= (* (g ?x) (+ (f) 1)) 2) (r)))"),
+                     ("(and (or (not (r)) (<= (/ (f) (+ (g ?y) 2)) 1)))",
+                      "(and (forall (?z - t1) (when (> (- (g ?z) (+ (f) (g ?x))) 0) (p ?z))))"),
+                     ("(and (or (r) (<= (/ (f) (* 2 (g ?x))) 3)))", "(and (when (< (/ (g ?y) (* (f) (g ?x))) 1) (not (r))))"),
+                     ("(and (p ?x) (or (> (* (+ (f) 1) (- (g ?x) 2)) 0) (q ?x ?y)))", "(and (r))")):
         c = vdom.program("xy", pre, eff, ["const", "identity-operands"])
         c["kind"] = "generated"
         c["max_states"] = 16
@@ -129,6 +136,15 @@ def _masked(tree):
     return "(" + " ".join(_masked(t) for t in tree) + ")"
 
 
+def _shape(tree):
+    """the tree with numerals masked and the operands of and / or in a canonical order"""
+    if isinstance(tree, str):
+        return "#" if is_number(tree) else tree
+    if tree and tree[0] in ("and", "or"):
+        return "(" + tree[0] + " " + " ".join(sorted(_shape(t) for t in tree[1:])) + ")"
+    return "(" + " ".join(_shape(t) for t in tree) + ")"
+
+
 def numerals(tree, ctx):
     """(context, value) of every numeral, operands of and/or visited in a numeral-independent canonical order;
     context 'cond' (printed at 2 decimals) for preconditions and when-conditions, 'eff' (4 decimals) for effects"""
@@ -161,8 +177,8 @@ def constants_survive(P1, P2):
             continue
         n1 = numerals(a1.pre, "cond") + numerals(a1.eff, "eff")
         n2 = numerals(a2.pre, "cond") + numerals(a2.eff, "eff")
-        if [c for c, _ in n1] != [c for c, _ in n2]:
-            continue  # different structure: judged by the behaviour / structure clauses
+        if [c for c, _ in n1] != [c for c, _ in n2] or _shape(a1.pre) != _shape(a2.pre) or _shape(a1.eff) != _shape(a2.eff):
+            continue  # different structure (e.g. a condition printed through the simplifier): judged by the behaviour clause
         for (ctx, v1), (_, v2) in zip(n1, n2):
             d = 2 if ctx == "cond" else 4
             if abs(v1 - v2) > Fraction(1, 2) / 10 ** d * (1 + Fraction(1, 10 ** 6)):
